@@ -495,11 +495,15 @@ impl RunConfig {
         for (n, listeners) in all_listeners.into_iter().enumerate() {
             for (listener, descriptor) in listeners {
                 let shutdown_manager = Arc::clone(&shutdown_manager);
+                #[cfg(feature = "graceful-shutdown")]
+                let listening = shutdown::ConnectionGuard::new(&shutdown_manager);
                 std::thread::spawn(move || {
                     tokio_uring::start(async move {
                         accept(listener(), descriptor, &shutdown_manager, n == 0)
                             .await
                             .expect("failed to accept message");
+                        #[cfg(feature = "graceful-shutdown")]
+                        drop(listening);
                         shutdown_manager.wait().await;
                     });
                 });
@@ -510,7 +514,15 @@ impl RunConfig {
             let listeners = all_listeners.into_iter().next().unwrap();
             for (listener, descriptor) in listeners {
                 let shutdown_manager = Arc::clone(&shutdown_manager);
+                // Every accept loop counts as one connection from before anyone can call `shutdown()`
+                // until its listener is closed. A shutdown can therefore not complete while a loop
+                // holds a stream it has accepted but not yet counted.
+                #[cfg(feature = "graceful-shutdown")]
+                let listening = shutdown::ConnectionGuard::new(&shutdown_manager);
                 let future = async move {
+                    // declared first: dropped after the listener inside `accept` is closed
+                    #[cfg(feature = "graceful-shutdown")]
+                    let _listening = listening;
                     accept(listener(), descriptor, &shutdown_manager, true)
                         .await
                         .expect("Failed to accept message!");
@@ -731,10 +743,14 @@ async fn accept(
 
         #[cfg(feature = "graceful-shutdown")]
         let shutdown_manager = Arc::clone(shutdown_manager);
+        // Count the connection here, not in the task: else this loop could see the shutdown flag and
+        // release its own count (see `RunConfig::execute`) before the task has started.
+        #[cfg(feature = "graceful-shutdown")]
+        let connection = shutdown::ConnectionGuard::new(&shutdown_manager);
         let _task = spawn(async move {
             // released when this task ends, also if the handler panics
             #[cfg(feature = "graceful-shutdown")]
-            let _connection = shutdown::ConnectionGuard::new(&shutdown_manager);
+            let _connection = connection;
             let _result = handle_connection(stream, addr, descriptor, || {
                 #[cfg(feature = "async-networking")]
                 {
